@@ -250,3 +250,14 @@ fn slfu_fill_sample_1() {
 fn slfu_fill_sample_2() {
     fill_sample_case(2)
 }
+
+// negative control: MUST fail (see harness_raw.rs)
+#[kani::proof]
+#[kani::unwind(6)]
+fn negctl_increment_never_changes_room() {
+    let (mut s, t) = any_slfu(N);
+    let c = any_cost();
+    let h: u64 = kani::any();
+    s.increment_hashed_key(h, c);
+    ck!(s.room_left(0) == t.max_cost - t.sum(), "[negctl] increment leaves room_left unchanged (false)");
+}
